@@ -7,3 +7,41 @@ Theorem C12_consec_push_index : forall (R : Region) (SP : RSpec R), RegionOK R -
   forall (PI : PairIdx R) (D : Dense R) (O : IC nat) (HO : ICOk O) (chk : bool) x v x' k,
   inv x -> push (consec R O chk) x v = Ok (x', k) -> S k = length (ic_abs (snd (fst x))).
 Proof. exact (@consec_push_index). Qed.
+
+(** columns: the k-th row pushed since creation / merge / clear gets index k -- empty rows included,
+    however many columns earlier or later rows have created ... *)
+Theorem C12_columns_push_index : forall (R : Region) (SP : RSpec R), RegionOK R ->
+  forall (O : IC nat) (HO : ICOk O) (chk : bool) x vs x' k,
+  inv x -> push (columns R O chk) x vs = Ok (x', k) -> S k = length (ic_abs (snd (fst (snd x)))).
+Proof. exact (@columns_push_index). Qed.
+(** ... and index k reads back exactly the pushed row: its own length, its own cells (the round trip
+    of the columns region, which holds for rows of ANY width over ANY number of existing columns) *)
+Theorem C12_columns_row_exact : forall (R : Region) (SP : RSpec R), RegionOK R ->
+  forall (O : IC nat) (HO : ICOk O) (chk : bool) (x : st (columns R O chk)) (vs : list (val R)),
+  @inv _ (@columns_spec R SP O HO chk) x -> @dom _ (@columns_spec R SP O HO chk) x vs ->
+  exists x' k, push (columns R O chk) x vs = Ok (x', k) /\ read (columns R O chk) x' k = Ok vs.
+Proof. intros R SP H O HO chk. exact (@push_ok (columns R O chk) _ (@columns_ok R SP H O HO chk)). Qed.
+(** the same for the consecutive-pairs wrapper *)
+Theorem C12_consec_item_exact : forall (R : Region) (SP : RSpec R) (H : RegionOK R) (PI : PairIdx R) (D : Dense R)
+  (O : IC nat) (HO : ICOk O) (chk : bool) (x : st (consec R O chk)) (v : val R),
+  @inv _ (@consec_spec R SP PI D O HO chk) x -> @dom _ (@consec_spec R SP PI D O HO chk) x v ->
+  exists x' k, push (consec R O chk) x v = Ok (x', k) /\ read (consec R O chk) x' k = Ok v.
+Proof. intros R SP H PI D O HO chk. exact (@push_ok (consec R O chk) _ (@consec_ok R SP H PI D O HO chk)). Qed.
+
+(** The known finding D8, exhibited IN THE MODEL: ConsecutiveIndexPairs directly over CollapseSequence
+    (catalogue entry 29, which type-checks in Rust) breaks the property, because a collapsing region
+    is not [Dense].  Wrapping build: push [1,2], [1,2], [3] returns 0, 1, 2 but index 1 reads [] instead
+    of [1,2].  Checked build: the second push panics (the debug_assert_eq! in push).  These are the
+    refutations of C01/C12 for that composition class; every other composition is covered by
+    [C01_catalogue] / the theorem above. *)
+From FC Require Import Base.UVal Model.Wire Model.Machine Model.Catalogue.
+Definition d8_run (chk : bool) (ops : list op) : list (list obs) :=
+  match entry chk [] 29%N with Some M => run0 M ops | None => [] end.
+Example C12_D8_refuted_wrapping :
+  d8_run false [OPush 0 0%N (UL [UN 1%N; UN 2%N]); OPush 0 0%N (UL [UN 1%N; UN 2%N]); OPush 0 0%N (UL [UN 3%N]); ORead 0]
+  = [[BIdx (UN 0%N)]; [BIdx (UN 1%N)]; [BIdx (UN 2%N)];
+     [BVal (UL [UN 1%N; UN 2%N]); BVal (UL []); BVal (UL [UN 3%N])]].
+Proof. vm_compute. reflexivity. Qed.
+Example C12_D8_refuted_checked :
+  d8_run true [OPush 0 0%N (UL [UN 1%N; UN 2%N]); OPush 0 0%N (UL [UN 1%N; UN 2%N])] = [[BIdx (UN 0%N)]; [BPanic]].
+Proof. vm_compute. reflexivity. Qed.
